@@ -115,6 +115,9 @@ def add_fields(rng, M, kinds=("scalar", "vector", "int")):
         M["cf"]["c"] = {t: [val() for _ in rows] for t, rows in M["blocks"]}
     if "vector" in kinds and rng.random() < 0.4:
         M["cf"]["cv"] = {t: [[val() for _ in range(M["dim"])] for _ in rows] for t, rows in M["blocks"]}
+    if rng.random() < 0.12:
+        # a cell field whose OWN name holds the separator the library puts between a cell field's name and its cell type
+        M["cf"]["q @ s"] = {t: [val() for _ in rows] for t, rows in M["blocks"]}
     return M
 
 
